@@ -155,13 +155,19 @@ class ExcSpec:
     """Exceptional outcome: class name, `when` (condition over the pre-state under which a caller
     must expect it; None = any time), `ensures` (exceptional postcondition)."""
 
-    def __init__(self, cls, when=None, ensures=None, props=(), exact=True, modifies=None):
+    def __init__(self, cls, when=None, ensures=None, props=(), exact=True, modifies=None,
+                 guarded=False, forces=None):
         self.cls = cls
         self.when = when
         self.ensures = ensures or (lambda c: [])
         self.props = list(props)
         self.exact = exact
         self.modifies = modifies      # frame of this outcome (None: the contract's modifies)
+        # guarded: `when` is a sufficient condition only: this clause describes the exits on which
+        # `when` held at entry; exits of the same class with `when` false fall to the other clauses
+        self.guarded = guarded
+        # forces: when `when` holds the call cannot return normally
+        self.forces = (exact and not guarded) if forces is None else forces
 
 
 class LoopSpec:
@@ -598,7 +604,7 @@ class Engine:
             return
         al = self.gread(st, 'alloc')
         if v.ty.kind == 'obj':
-            st.assume(z3.Select(al, v.t))
+            st.assume(is_alloc(al, v.t))
             if v.ty.cls.endswith('?'):
                 pass
             elif v.ty.cls in CLS:
@@ -608,7 +614,7 @@ class Engine:
         elif v.ty.kind == 'opt' and v.ty.args[0].kind == 'obj':
             srt = v.ty.sort()
             inner = v.ty.args[0]
-            st.assume(z3.Implies(srt.is_some(v.t), z3.Select(al, srt.val(v.t))))
+            st.assume(z3.Implies(srt.is_some(v.t), is_alloc(al, srt.val(v.t))))
             if inner.cls in CLS:
                 st.assume(z3.Implies(srt.is_some(v.t), cls_of(srt.val(v.t)) == CLS[inner.cls]))
             elif inner.cls in ('Operation', 'ComplexOperation'):
@@ -1345,7 +1351,7 @@ class Engine:
 
     def coerce_arg(self, v, ty):
         """call-site value -> Sym of the declared parameter type (or raw for non-symbolic)"""
-        if ty is None:
+        if ty is None or not isinstance(ty, Ty):
             return v
         if isinstance(v, Sym):
             if v.ty.sort() == ty.sort():
@@ -1353,6 +1359,12 @@ class Engine:
             if v.ty.kind == 'pyv' and ty.kind == 'str':
                 from spec import json_spec as J
                 return Sym(PyV.ps(J.base_of(v.t)), STR)
+            if v.ty.kind == 'opt' and v.ty.args[0].sort() == ty.sort():
+                # Optional value passed where the callee dereferences it: must not be None
+                st_ = getattr(self, '_coerce_state', None)
+                if st_ is not None:
+                    self.oblige(st_, v.ty.sort().is_some(v.t), 'type', 'argument-not-None')
+                return Sym(v.ty.sort().val(v.t), ty, fresh=v.fresh)
             if ty.kind == 'pyv' and v.ty.kind in ('str', 'int', 'bool'):
                 return Sym(self.intr.to_pyv(v), PYV)
             if ty.kind == 'opt' and v.ty.sort() == ty.args[0].sort():
@@ -1382,8 +1394,10 @@ class Engine:
     def apply_contract(self, st, fi, con, args, node):
         self.stats['callee_contracts'].add(self.prog.short(fi.qualname))
         cargs = {}
+        self._coerce_state = st
         for p, v in args.items():
             cargs[p] = self.coerce_arg(v, con.params.get(p))
+        self._coerce_state = None
         pre = st.fork()
         c0 = Ctx(self, pre, pre, cargs, entry=pre)
         line = getattr(node, 'lineno', None)
@@ -1433,18 +1447,17 @@ class Engine:
                     # the callee may allocate: the allocated set grows, results are allocated
                     a1 = self.gread(s1, 'alloc')
                     a2 = fresh('Gc!alloc', a1.sort())
-                    qo = z3.Const('qx!alc', ObjS)
-                    s1.assume(z3.ForAll([qo], z3.Implies(a1[qo], a2[qo])))
+                    s1.assume(a2 >= a1)
                     self.gwrite(s1, 'alloc', a2)
                     self.assume_alloc(s1, res)
                 c1 = Ctx(self, pre, s1, cargs, res=(res.t if isinstance(res, Sym) else res),
                          entry=pre)
                 # when the exact exceptional guards are known the normal outcome excludes them
                 for es2 in con.raises:
-                    if es2.when is not None and es2.exact:
+                    if es2.when is not None and es2.forces:
                         s1.assume(z3.Not(es2.when(c0)))
-                for (label, f) in con.ensures(c1):
-                    s1.assume(f)
+                for item in con.ensures(c1):
+                    s1.assume(item[1])
                 if not self.feasible(s1):
                     continue
                 s1.trace.append('c%s:ret' % (line,))
@@ -1454,8 +1467,8 @@ class Engine:
                 if es.when is not None:
                     s1.assume(es.when(c0))
                 c1 = Ctx(self, pre, s1, cargs, exc=exc, entry=pre)
-                for (label, f) in es.ensures(c1):
-                    s1.assume(f)
+                for item in es.ensures(c1):
+                    s1.assume(item[1])
                 if not self.feasible(s1):
                     continue
                 s1.trace.append('c%s:%s' % (line, es.cls))
@@ -1542,7 +1555,7 @@ class Engine:
                     notallowed = z3.And([o != a for a in allowed]) if allowed else z3.BoolVal(True)
                     if 'alloc' in self.GHOST_SORTS:
                         # frames speak about objects that existed at entry
-                        notallowed = z3.And(notallowed, z3.Select(self.gread(entry, 'alloc'), o))
+                        notallowed = z3.And(notallowed, is_alloc(self.gread(entry, 'alloc'), o))
                     self.oblige(s1, z3.Implies(notallowed, cur == ent), 'frame', tag + field)
             for gname in list(s1.g.keys()):
                 if gname in mod_ghost or gname == 'alloc':
@@ -1560,7 +1573,7 @@ class Engine:
                 c1 = Ctx(self, entry, s1, args, res=self.result_term(res, con, s1), entry=entry)
                 c1.resval = res
                 for es in con.raises:
-                    if es.when is not None and es.exact:
+                    if es.when is not None and es.forces:
                         self.oblige(s1, z3.Not(es.when(c0)), 'post',
                                     'returns-only-if-not-%s' % es.cls, props=es.props or None)
                 for item in con.ensures(c1):
@@ -1575,22 +1588,24 @@ class Engine:
                                 props=getattr(con, 'fresh_props', None))
             elif ctrl == 'exc':
                 exc = v
-                matched = False
-                allowed = []
-                for es in con.raises:
-                    allowed.append(exc_issub(exc.cls, es.cls) if es.cls in ('OSError', 'Exception')
-                                   else exc.cls == EXC[es.cls])
+
+                def cls_cond(es):
+                    cc = (exc_issub(exc.cls, es.cls) if es.cls in ('OSError', 'Exception')
+                          else exc.cls == EXC[es.cls])
+                    if es.guarded:
+                        cc = z3.And(cc, es.when(c0))
+                    return cc
+                allowed = [cls_cond(es) for es in con.raises]
                 self.oblige(s1, z3.Or(allowed) if allowed else False, 'exc',
                             'declared-exception')
                 for es in con.raises:
-                    cond = (exc_issub(exc.cls, es.cls) if es.cls in ('OSError', 'Exception')
-                            else exc.cls == EXC[es.cls])
+                    cond = cls_cond(es)
                     s2 = s1.fork()
                     if not self.feasible(s2, cond):
                         continue
                     s2.assume(cond)
                     c1 = Ctx(self, entry, s2, args, exc=exc, entry=entry)
-                    if es.when is not None:
+                    if es.when is not None and not es.guarded and es.exact:
                         self.oblige(s2, es.when(c0), 'exc-when', es.cls, props=es.props or None)
                     for item in es.ensures(c1):
                         label, f = item[0], item[1]
